@@ -105,6 +105,13 @@ func (c *c16CustomCtx) cancel() {
 	}
 }
 
+type c16Detached struct{ inner context.Context }
+
+func (c16Detached) Deadline() (time.Time, bool) { return time.Time{}, false }
+func (c16Detached) Done() <-chan struct{}       { return nil }
+func (c16Detached) Err() error                  { return nil }
+func (c c16Detached) Value(k any) any           { return c.inner.Value(k) }
+
 type c16Input struct {
 	idx    int
 	kind   string // std | dl | custom | child | never
@@ -334,6 +341,14 @@ func (m *c16Machine) newInput(t *rapid.T, idx int) *c16Input {
 		x.ctx, x.cancel = m.withVals(ctx, idx), cancel
 	case "never":
 		x.ctx = m.withVals(context.Background(), idx)
+		if rapid.Bool().Draw(t, "detached") {
+			// a hand-written "detached" wrapper: it keeps the values of a context that is already cancelled but is
+			// itself never cancelled (no Done channel, nil Err) — only Done/Err say whether a context is cancelled
+			inner, cancel := context.WithCancel(context.Background())
+			cancel()
+			x.ctx = c16Detached{m.withVals(inner, idx)}
+			m.class("kind:detached-from-cancelled-parent")
+		}
 	}
 	desc := x.kind
 	switch x.kind {
